@@ -1,7 +1,13 @@
 """C09 - malformed ZINC raises ZincParseException: never mis-parsed, never a crash."""
+import faulthandler
+import mmap
+import os
 import random
+import subprocess
 import sys
+import time
 
+from vf import core
 from vf import domain as D
 from vf import hs
 from vf import refzinc
@@ -19,7 +25,102 @@ RULE = ('(1) exhaustive single mutations of small well-formed documents (delete 
         'non-trivial = every mutated / random input')
 ASSUME = ['the independent reader decides "certainly broken"; a constructed document it does not reject is discarded and counted',
           'date-time values are masked in the both-accept comparison (unknown zone names are handled differently by design)',
-          'wall-clock only as an outer watchdog (shard timeout => inconclusive)']
+          'wall-clock only as an outer watchdog: the step meter cannot see time spent inside one C-level call (a regular '
+          'expression that backtracks without end), so every worker arms a faulthandler watchdog (%d s without moving on to '
+          'the next input; an input normally takes milliseconds) that ends the worker and leaves the input behind; the parent '
+          're-runs that input alone with a %d s limit and reports it only if it still does not return' % (90, 240)]
+WATCHDOG_S = 90
+CONFIRM_S = 240
+HB_DIR = os.path.join(core.ROOT, '.work', 'c09_watch')
+
+
+class Heartbeat(object):
+    """The input being parsed, kept in a memory-mapped file, and a faulthandler watchdog (a C thread, it does not need
+    the GIL) that ends this worker when no new input has been started for WATCHDOG_S seconds."""
+
+    def __init__(self, idx):
+        os.makedirs(HB_DIR, exist_ok=True)
+        self.path = os.path.join(HB_DIR, 'hb_%d_%d' % (os.getppid(), idx))
+        self.f = open(self.path, 'w+b')
+        self.f.truncate(1 << 17)
+        self.mm = mmap.mmap(self.f.fileno(), 1 << 17)
+        self.tb = open(self.path + '.tb', 'w')
+        self.last = 0.0
+        self.max_wall = 0.0
+        self.t_in = time.monotonic()
+
+    def beat(self, kind, payload):
+        now = time.monotonic()
+        self.max_wall = max(self.max_wall, now - self.t_in)
+        self.t_in = now
+        b = (kind + '\n' + payload).encode('utf-8', 'surrogatepass')[:(1 << 17) - 8]
+        self.mm[0:4] = len(b).to_bytes(4, 'little')
+        self.mm[4:4 + len(b)] = b
+        if now - self.last > 1.0:
+            faulthandler.dump_traceback_later(WATCHDOG_S, file=self.tb, exit=True)
+            self.last = now
+
+    def done(self):
+        faulthandler.cancel_dump_traceback_later()
+        self.mm.close()
+        self.f.close()
+        self.tb.close()
+        for q in (self.path, self.path + '.tb'):
+            try:
+                os.unlink(q)
+            except OSError:
+                pass
+
+
+_hb = [None]
+
+
+def beat(kind, payload):
+    if _hb[0] is not None:
+        _hb[0].beat(kind, payload)
+
+
+_CONFIRM = r'''
+import sys, warnings
+warnings.simplefilter('ignore')
+sys.path.insert(0, sys.argv[1])
+import hszinc
+kind, _, payload = open(sys.argv[2], 'rb').read().decode('utf-8', 'surrogatepass').partition('\n')
+class Sink(object):
+    def write(self, s): pass
+    def flush(self): pass
+sys.stdout = Sink()
+try:
+    if kind == 'text':
+        hszinc.parse(payload, mode=hszinc.MODE_ZINC, single=False)
+    elif kind.startswith('bytes:'):
+        hszinc.parse(bytes.fromhex(payload), mode=hszinc.MODE_ZINC, charset=kind[6:], single=False)
+    else:
+        hszinc.parse_scalar(payload, mode=hszinc.MODE_ZINC, version=kind[7:])
+except BaseException:
+    pass
+'''
+
+
+def confirm_hang(kind, payload, limit=CONFIRM_S):
+    """Re-run one input alone in a fresh interpreter. Returns seconds taken, or None when it did not return in time."""
+    os.makedirs(HB_DIR, exist_ok=True)
+    path = os.path.join(HB_DIR, 'confirm_%d' % os.getpid())
+    with open(path, 'wb') as f:
+        f.write((kind + '\n' + payload).encode('utf-8', 'surrogatepass'))
+    t0 = time.time()
+    try:
+        subprocess.run([core.PY, '-B', '-c', _CONFIRM, core.REPO, path], timeout=limit, stdin=subprocess.DEVNULL,
+                       stdout=subprocess.DEVNULL, stderr=subprocess.DEVNULL, env=core.worker_env(None))
+        return time.time() - t0
+    except subprocess.TimeoutExpired:
+        return None
+    finally:
+        try:
+            os.unlink(path)
+        except OSError:
+            pass
+
 
 INTERESTING = ['"', '\\', '`', ',', '\n', '\r', ' ', ':', '@', '[', ']', '{', '}', '<', '>', '(', ')', 'N', 'T', '-', '0', '.', 'e',
                u'\u00e9']
@@ -143,6 +244,7 @@ class Judge(object):
         ctx, hszinc = self.ctx, self.hszinc
         ctx.case(text)
         ctx.count('inputs')
+        beat('text', text)
         _steps[0] = 0
         _overrun[0] = False
         budget = BUDGET_PER_KIB * (1 + len(text) // 1024)
@@ -240,6 +342,7 @@ class Judge(object):
         ctx, hszinc = self.ctx, self.hszinc
         ctx.case('bytes', charset, data.hex())
         ctx.count('byte inputs')
+        beat('bytes:' + charset, data.hex())
         try:
             text = data.decode(charset)
         except UnicodeDecodeError:
@@ -370,6 +473,17 @@ def shards(tier, seed):
 
 
 def run_shard(spec, ctx):
+    _hb[0] = Heartbeat(ctx.shard)
+    try:
+        _run_shard(spec, ctx)
+        ctx.note('longest wall time between two inputs in shard %d: %.2f s' % (ctx.shard, _hb[0].max_wall))
+        ctx.count('watchdog armed shards')
+    finally:
+        _hb[0].done()
+        _hb[0] = None
+
+
+def _run_shard(spec, ctx):
     import hszinc
     meter_on()
     J = Judge(ctx, hszinc)
@@ -522,6 +636,7 @@ def scalar_part(ctx, hszinc, spec):
             for ver in ('2.0', '3.0'):
                 ctx.case('scalar', t, ver)
                 n_in += 1
+                beat('scalar:' + ver, t)
                 try:
                     hszinc.parse_scalar(t, mode=hs.ZINC, version=ver)
                     ctx.count('scalar outcome: parsed')
@@ -538,6 +653,13 @@ def scalar_part(ctx, hszinc, spec):
 
 
 def replay(case, ctx):
+    if 'watchdog' in case:
+        payload = D._dec_s(case['payload'])
+        took = confirm_hang(case['watchdog'], payload)
+        if took is None:
+            ctx.violation({'part': 'mutation', 'format': 'zinc', 'kind': 'termination', 'symptom': 'no-return-within-%ds' % CONFIRM_S,
+                           'features': ['how=inside-one-call']}, 'parsing did not return within %d s: %r' % (CONFIRM_S, payload[:200]), case)
+        return
     if 'bytes' in case:
         import hszinc
         meter_on()
@@ -563,8 +685,70 @@ def replay(case, ctx):
         J.feed(t, 'replay')
 
 
+def collect_watchdog(merged):
+    """Inputs left behind by workers the watchdog ended: confirm (a few of) them alone, report those that still do not return."""
+    if not os.path.isdir(HB_DIR):
+        return
+    mine = 'hb_%d_' % os.getpid()
+    left = []
+    for name in sorted(os.listdir(HB_DIR)):
+        path = os.path.join(HB_DIR, name)
+        if not name.startswith(mine):
+            # left by an interrupted earlier run
+            try:
+                if time.time() - os.path.getmtime(path) > 6 * 3600:
+                    os.unlink(path)
+            except OSError:
+                pass
+            continue
+        if name.endswith('.tb'):
+            continue
+        try:
+            raw = open(path, 'rb').read()
+            n = int.from_bytes(raw[:4], 'little')
+            kind, _, payload = raw[4:4 + n].decode('utf-8', 'surrogatepass').partition('\n')
+            tb = open(path + '.tb').read() if os.path.exists(path + '.tb') else ''
+        except Exception:
+            continue
+        finally:
+            for q in (path, path + '.tb'):
+                try:
+                    os.unlink(q)
+                except OSError:
+                    pass
+        if tb.strip():           # otherwise the worker ended for another reason (reported as a crashed shard)
+            left.append((kind, payload, tb))
+    if not left:
+        return
+    merged['counters']['workers ended by the watchdog'] += len(left)
+    left.sort(key=lambda x: len(x[1]))
+    from concurrent.futures import ThreadPoolExecutor
+    with ThreadPoolExecutor(max_workers=4) as ex:
+        took = list(ex.map(lambda x: confirm_hang(x[0], x[1]), left[:4]))
+    merged['counters']['watchdog firings re-run alone'] += len(took)
+    for (kind, payload, tb), t in zip(left, took):
+        if t is not None:
+            merged['inconclusive'].append('watchdog fired on an input that returns in %.1f s when run alone (machine load?)' % t)
+            continue
+        where = [l.strip() for l in tb.splitlines() if 'hszinc' in l][:2]
+        key = 'C09/mutation/zinc/-/termination/{how=inside-one-call}/no-return-within-%ds' % CONFIRM_S
+        if key in merged['violations']:
+            merged['violations'][key]['n'] += 1
+            continue
+        merged['violations'][key] = {
+            'sig': {'part': 'mutation', 'format': 'zinc', 'kind': 'termination', 'symptom': 'no-return-within-%ds' % CONFIRM_S,
+                    'features': ['how=inside-one-call']}, 'key': key,
+            'what': 'parsing did not return within %d s (alone, fresh interpreter; the step meter saw no Python-level progress: the time '
+                    'is spent inside one call) at %r | %s input %r | %d workers were ended by the watchdog' % (
+                        CONFIRM_S, where, kind, payload[:200], len(left)),
+            'case': {'watchdog': kind, 'payload': D._enc_s(payload)}, 'n': 1}
+
+
 def finish(ctx, merged):
+    collect_watchdog(merged)
     c = merged['counters']
+    if c.get('watchdog armed shards', 0) == 0:
+        ctx.inconclusive.append('no shard ran under the watchdog')
     if c.get('inputs', 0) < 50000:
         ctx.inconclusive.append('fewer than 50000 inputs: %d' % c.get('inputs', 0))
     if c.get('outcome: rejected', 0) < 1000 or c.get('outcome: parsed', 0) < 1000:
